@@ -110,7 +110,8 @@ def data_to_tla(d, pos, known):
         big = True
         size = -1
     return {"name": d["name"], "thread": bool(d["thread"]), "export": bool(d["export"]),
-            "align": d["align"] if d["align"] is not None else 0, "pos": pos, "items": items,
+            # -1 = no align clause (QBE's default); an explicit `align 0` stays 0 and is judged (DataAlign)
+            "align": (d["align"] if d["align"] < BIG else BIG) if d["align"] is not None else -1, "pos": pos, "items": items,
             "big": big, "csize": size, "calign": align}
 
 
